@@ -364,7 +364,7 @@ def generate_and_run(rng, profile, max_client_ops=None):
                     do(["tick", ln - a.pos + rng.choice([0, 0, -1, 1])])
             cov = [True] * 5 if rng.random() < 0.6 else [rng.random() < 0.6 for _ in range(5)]
             do(["save"])
-            do(["load", cov])
+            do(["load", cov, True] if rng.random() < 0.15 else ["load", cov])   # third element: the file cannot be deleted
             settle()
             do(["add", [rng.randrange(NTRACKS) for _ in range(rng.randint(1, 3))], None])
             for _ in range(rng.randint(0, 4)):
